@@ -9,26 +9,33 @@ HARNESS_BIN = "c06"
 NCASES = {"quick": 24000, "thorough": 400000}
 CASE_TIMEOUT = {"quick": 30, "thorough": 120}
 
-LEVEL_TEXT = ("Coq theorems for all inputs (coq/props/C06.v, 45 statements incl. 6 refutations of the open findings on their witnesses): the as-is model of FloatEncoding::encode (one text, the f32 and "
+LEVEL_TEXT = ("Coq theorems for all inputs (coq/props/C06.v, 61 statements incl. 5 refutations of the open findings on their witnesses): the as-is model of FloatEncoding::encode (one text, the f32 and "
               "f64 constants) returns the round-to-nearest-even bit pattern and the true error sign of mantissa*2^exponent for every "
               "i32/i64 mantissa and every exponent (overflow, normal, subnormal, underflow branches); decode is its inverse on every "
               "finite pattern; UBig/IBig::to_f32/to_f64 are correct for EVERY integer: the multi-word route (top 31/63 bits + sticky bit, then encode) and the "
               "double-word route (native cast, error sign recovered by casting back, the saturation case of the all-ones double word) for any double-word size; "
               "RBig/Relaxed::to_f32/to_f64 as a whole (exponent bookkeeping, quotient with two guard bits and a sticky bit, overflow and underflow shortcuts) return the "
-              "correctly rounded value of N/D with the true error sign for every numerator and positive denominator; the rounding specification itself is proved equal to "
+              "correctly rounded value of N/D with the true error sign for every numerator and positive denominator; FBig<R,2>::to_f32/to_f64 (normalise, round to 24/53 bits "
+              "under the mode, into_f32/f64_internal) return the value rounded under the mode with the truthful flag for every mode, significand and exponent whose result is "
+              "not below the smallest normal number (the open class), and for significands of at most 24/53 bits over the whole range; the rounding specification itself is proved equal to "
               "Flocq's binary_normalize (mode_NE) + bits_of_b32/b64 with the error sign as Rcompare of the rounded against the exact real, for every dyadic m*2^e (all signs, "
               "subnormals, carry, overflow), so encode and the integer conversions are stated against Flocq directly; TryFrom<f32/f64> for UBig/IBig succeeds exactly on the "
-              "integers with their value; the primitive <-> UBig/IBig range checks accept exactly the range of the type for any word "
-              "size and round-trip. Every implementation answer of every conversion named by the property is judged by the extracted "
+              "integers with their value; TryFrom<FBig/Repr> for IBig, UBig and the primitive types (for every sound log2 estimate), From<UBig/IBig> for FBig and back, "
+              "TryFrom<RBig> for UBig/IBig and TryFrom<FBig> for RBig are exact or refused; the primitive <-> UBig/IBig range checks accept exactly the range of the type for any word "
+              "size and round-trip; the literals of encode/decode, to_f32/f64_nontrivial, to_f32/f64_small (shape), Repr::to_f32/to_f64 and into_f32/f64_internal are re-read from the "
+              "repository on every run and proved equal to the constants of the models. Every implementation answer of every conversion named by the property is judged by the extracted "
               "specification on generated inputs.")
 LEVEL_NOTE = ("Trusted: Coq kernel, extraction + FastZ.v, zarith, harness, the contract of Rust's `as` casts between integers and floats "
               "(uN as f32/f64 = round to nearest even, f as uN = truncate and saturate; modelled as cast_uint = the rounding specification and cast_back). The in-house "
-              "specification ieee_rne is no longer trusted for dyadic sources (proved = Flocq); for a rational source N/D that is not dyadic it is the definition of "
-              "'correctly rounded' (round_rat_at / spec_round on Z). Compared on every run but NOT proved: FBig::to_f32/to_f64 (base 2 and other bases), "
-              "RBig::to_float, TryFrom between FBig/RBig and integers/floats, to_int, to_f32_fast/to_f64_fast (bounded error only). FBig -> f32/f64 for bases other than 2 goes through "
+              "specification ieee_rne is no longer trusted for dyadic sources (proved = Flocq); for a rational source N/D that is not dyadic, and for the directed modes of "
+              "FBig::to_f32, ieee_round (round_rat_at / spec_round on Z, pattern monotone in the value) is the definition of 'correctly rounded'. Compared on every run but NOT proved: "
+              "FBig::to_f32/to_f64 for bases other than 2 and in the subnormal range, RBig::to_float (repaired in this round to round once; as-is model of the repaired code, 100% "
+              "fidelity on the run), RBig::to_int, FBig::to_int, TryFrom<FBig/RBig> for f32/f64 (through to_f32/to_f64 exactness), to_f32_fast/to_f64_fast (bounded error only). The models of "
+              "the FBig/RBig <-> integer TryFrom impls (Conv/ConvTryProofs.v) are proved but not extracted into the oracle: those ops are judged by the specification only. FBig -> f32/f64 for bases other than 2 goes through "
               "convert_base: only the routes without logarithm are modelled (|exponent| <= 38 or power-of-two base); the logarithm "
-              "route is C08's. IBig arithmetic under the conversions is taken as Z (C01/C02/C09). The models are hand transcriptions tied to the code by the correspondence run "
-              "(asis=same on every case), which now includes integers whose discarded part holds a single bit at every distance from the truncation point.")
+              "route is C08's. IBig arithmetic under the conversions is taken as Z (C01/C02/C09). The models are hand transcriptions tied to the code by the regenerated literals "
+              "(coq/gen/ConvParams.v, theorem C06_source_literals_tie) and by the correspondence run "
+              "(asis=same on every case), which includes integers whose discarded part holds a single bit at every distance from the truncation point.")
 TECHNIQUE = "Coq proof (as-is models of encode/decode/to_f32/to_f64/range checks = Z-level IEEE specification = Flocq binary_normalize) + extracted specification on a correspondence run"
 RULE = ("cases = conversion x source values: every primitive type at MIN/MAX and one beyond on both sides; integers 2^k+-{0,1,2} for k at "
         "8,16,24,25,32,53,54,64,65,128,129,1024 and the f32/f64 overflow thresholds (2^128-2^104, 2^128-2^103, 2^1024-2^971, 2^1024-2^970) "
